@@ -271,6 +271,54 @@ def raw_deps_loops(A: Analysis, fi):
     return [l for l in walk_local(fi.node) if isinstance(l, ast.For) and A.xtext(l.iter, fi) in RAW_DEPS_FORMS]
 
 
+_FRESH_DICT = ("{}", "dict()")
+
+
+def rule_load1(A: Analysis, rep):
+    """The tasks of each COND file are kept per file (`_loaded_raw_tasks[file]`): `parse_cond_file` must hand out a dict
+    of its own on every call.  If it returned one long-lived object, every file's entry would be the dict of the file
+    parsed last, and which tasks are found (and whether a missing dependency is noticed) would depend on load order."""
+    fi = A.fn("parsing.task_loader.TaskLoader.parse_cond_file")
+    g = A.cfg(fi, "plain")
+    rets = [n for n in g.nodes if n.kind == "stmt" and isinstance(n.ast, ast.Return) and n.ast.value is not None]
+    if not rets:
+        raise AnalysisError("LOAD1: parse_cond_file returns nothing")
+
+    def fresh_defs(name_text):
+        return [n for n in g.nodes if n.kind == "stmt" and isinstance(n.ast, (ast.Assign, ast.AnnAssign)) and n.ast.value is not None
+                and norm(n.ast.targets[0] if isinstance(n.ast, ast.Assign) else n.ast.target) == name_text]
+    for r in rets:
+        v = r.ast.value
+        ok = False
+        why = "`%s` is not a dict created by this call" % norm(v)
+        if isinstance(v, (ast.Dict, ast.DictComp)) or (isinstance(v, ast.Call) and (norm(v.func) == "dict" or (isinstance(v.func, ast.Attribute) and v.func.attr == "copy"))):
+            ok = True
+        elif isinstance(v, (ast.Name, ast.Attribute)):
+            defs = fresh_defs(norm(v))
+            # every definition reaching the return creates the container (directly, or from a local that does)
+            def is_fresh(d):
+                val = d.ast.value
+                if norm(val) in _FRESH_DICT:
+                    return True
+                if isinstance(val, ast.Name):
+                    ds = fresh_defs(val.id)
+                    return bool(ds) and all(norm(x.ast.value) in _FRESH_DICT for x in ds) and g.all_paths_pass(g.entry, d, ds, skip_labels=is_exc)
+                return False
+            ok = bool(defs) and all(is_fresh(d) for d in defs) and g.all_paths_pass(g.entry, r, defs, skip_labels=is_exc)
+        rep.check(ok, "LOAD1", "parse_cond_file returns a dict of its own", r.ast, "created inside the call on every path to the return",
+                  "%s: every COND file's entry in the task index would be one shared object holding the tasks of the file parsed last" % why)
+    # the caller keeps what it was given, per file
+    ti = [f for f in A.prog.scan_functions if f.fq.startswith("conductor.parsing.task_index.TaskIndex.")]
+    n_st = 0
+    for f in ti:
+        for s in walk_local(f.node):
+            if isinstance(s, ast.Assign) and isinstance(s.targets[0], ast.Subscript) and norm(s.targets[0].value) == "self._loaded_raw_tasks":
+                n_st += 1
+                rep.check(bool(A.calls_in(s.value, "TaskLoader.parse_cond_file")), "LOAD1", "per-file entry = that file's parse result", s, "",
+                          "_loaded_raw_tasks[...] is not assigned the result of parse_cond_file")
+    rep.expect_min("LOAD1", 3)
+
+
 def rule_dup1(A: Analysis, rep):
     fi = A.fn(TI + "_materialize_raw_task")
     g = A.cfg(fi, "plain")
